@@ -16,6 +16,8 @@ pub static KNOWN_HITS: AtomicU64 = AtomicU64::new(0);
 pub static HARNESS_ERRORS: AtomicU64 = AtomicU64::new(0);
 static CLASSES: Mutex<BTreeMap<String, u64>> = Mutex::new(BTreeMap::new());
 static SAMPLES: Mutex<Vec<String>> = Mutex::new(Vec::new());
+/// hashes of the non-trivial cases seen so far (NONTRIVIAL counts distinct ones)
+static SEEN: Mutex<Option<std::collections::HashSet<[u8; 8]>>> = Mutex::new(None);
 
 extern "C" fn write_stats() {
     if let Ok(path) = std::env::var("VERIF_FUZZ_STATS") {
@@ -36,9 +38,15 @@ fn judge<C: Serialize + std::fmt::Debug>(id: &str, sub: &str, case: &C, v: Verdi
         HARNESS_ERRORS.fetch_add(1, Ordering::Relaxed);
         return;
     }
-    if v.nontrivial {
+    let fresh = v.nontrivial && {
+        let h = blake3::hash(format!("{sub}{case:?}").as_bytes());
+        let mut k = [0u8; 8];
+        k.copy_from_slice(&h.as_bytes()[..8]);
+        SEEN.lock().map(|mut s| s.get_or_insert_with(Default::default).insert(k)).unwrap_or(false)
+    };
+    if fresh {
         let n = NONTRIVIAL.fetch_add(1, Ordering::Relaxed);
-        if n < 400 && n % 100 == 0 {
+        if n < 4000 && n % 1000 == 7 {
             if let Ok(mut s) = SAMPLES.lock() {
                 s.push(trunc(&format!("{case:?}"), 300));
             }
